@@ -66,6 +66,9 @@ var NastyPool = []string{
 	"linux", "windows", "darwin", "amd64", "arm64", "test", "foo_test", "foo_linux", "foo_windows", "bar_amd64", "thing_js", "thing_wasm", "x_unix", "android", "ios",
 	// generated file suffix words
 	"foo_parameters", "foo_responses", "foo_urlbuilder", "foo_client", "get_foo", "foo_params_body", "foo_ok_body",
+	// names the generator de-conflicts with a rename chain (client timeout field, context, http client)
+	"Timeout", "_timeout", "timeout-", "TimeOut", "request-timeout", "RequestTimeout", "request_timeout", "http_request_timeout", "HTTPRequestTimeout", "swagger-timeout", "operation_timeout",
+	"Context", "_context", "request-context", "HTTPClient", "http_client", "http-client",
 	// non-ASCII letters
 	"é", "été", "ß", "straße", "Ж", "жук", "名", "名前", "naïve", "Ünïcode", "ñandú", "日本語name", "emoji😀x",
 }
